@@ -33,7 +33,40 @@ VERIFY_RULE = ("verify stream: one evaluation = one candidate account block hand
                "the Lean model must give the same verdict AND the same reason; monitor: the property's sentence "
                "re-implemented from the statement, evaluated on every accepted candidate; distinct = distinct lines")
 
-PROPS = {    "C01": {
+CONTRACT_RULE = ("contract stream: one evaluation = one line: a contract receive of a generated history on a real node (decoded call, "
+                 "sender, amount/token, the frontier momentum it saw, oracle inputs such as preimage digests / signature check / "
+                 "configured token pair, observed status and descendant sends) replayed through the Lean state machine of that "
+                 "contract which predicts status and payouts, or a storage / balance query after a momentum (every entry read "
+                 "through the definition.* getters for the contracts touched in that momentum, per-contract digests and balances "
+                 "at every momentum) answered from the model state; contracts: plasma, stake, htlc, pillar, sentinel (+ QSR "
+                 "deposits), liquidity stakes, bridge unwrap/redeem; calls are built by contract-specific generators (valid flows, "
+                 "wrong owner, too early / exactly at / just after maturity or window edges, repeated, unknown id, wrong "
+                 "token/amount/duration/preimage/signature, proxy unlock allowed/denied); five histories in six run with shortened "
+                 "lock periods (the constants are package variables), one in six with the production values; two thirds run under "
+                 "the accelerator+bridge+htlc sporks, of those half with the liquidity and half with the bridge administrator "
+                 "setup; monitors: sum of recorded liabilities <= balance per contract and token at every momentum, every payout "
+                 "goes to the entitled party with the locked amount not before maturity and never twice, storage agrees with the "
+                 "log of confirmed deposits, matured withdrawals are not refused, refunds exact; distinct = distinct lines")
+
+PROPS = {
+    "C10": {
+        "module": "ZenonVerif.Props.C10",
+        "streams": [S("contract", 60, 600)],
+        "rule": CONTRACT_RULE,
+        "partial": "reward bookkeeping (Update / CollectReward), legacy pillar registration, liquidity administration and "
+                   "reward pools enter the replay as observed outcomes and are outside the liability sums; for liquidity only "
+                   "LiquidityStake / CancelLiquidityStake / BurnZnn are modelled and backing holds only without BurnZnn/Fund "
+                   "(known finding F14); for the bridge only UnwrapToken / Redeem / RevokeUnwrapRequest are modelled, with the "
+                   "configuration reads (may-act, token pair found) and the TSS signature check as oracle inputs computed by the "
+                   "harness from the real storage / real CheckECDSASignature; wrap requests, fees, halting and key management are "
+                   "observed outcomes only; stake entries deleted by a reward epoch are not reached (first epoch only); the "
+                   "theorems are per contract (no joint theorem over interleavings with unmodelled methods)",
+        "assumptions": ["send-block hashes are collision-free (fresh ids)", "every amount is below 2^256 (token max supply is 2^255-1)",
+                        "timestamps and heights stay below 2^62 (no int64/uint64 wrap-around)",
+                        "SHA3-256 / SHA-256 (htlc) and secp256k1 recovery (bridge) are parameters / oracle inputs",
+                        "frontier time is never 0 (pillar revoke; genesis is in 2001)"],
+    },
+    "C01": {
         "module": "ZenonVerif.Props.C01",
         "streams": [S("ledger", 60, 3000)],
         "rule": LEDGER_RULE,
